@@ -557,7 +557,7 @@ async def call_helper(call, rd, wr, D_s, memo):
     return dict({"outcome": "returned", "value": jsonable(res)}, **extra)
 
 
-async def converse(rd, wr, case, obs, server, lo=0, hi=None):
+async def converse(rd, wr, case, obs, server, lo=0, hi=None, settle=True):
     import anyio
     loop = asyncio.get_running_loop()
     tap = Tap(rd, obs["transcript"])
@@ -572,6 +572,8 @@ async def converse(rd, wr, case, obs, server, lo=0, hi=None):
         obs["outcomes"].append(await call_helper(x["call"], tap, wtap, D_s, memo))
         await anyio.sleep(SETTLE_TICKS * vloop.TICK)
         obs["late"] += tap.drain()
+    if not settle:
+        return   # the session is LEFT as it is (its last request still in flight)
     await settle_end(tap, obs, server)
     if case.get("escape") and hi is None and memo.get("exc") is not None:
         # the usual application shape: the exception of the (last) request helper is not caught inside the block
@@ -628,14 +630,14 @@ async def drive_block(ttype, params, case, obs, server):
         await client_session(ttype, params, case, obs, server)
     elif case.get("via") == "transport":
         t = make_transport(ttype, params, obs)
-        split = case.get("reenter")  # the same transport object is left and entered again before exchange `split`
-        async with t:
-            rd, wr = await t.get_streams()
-            await converse(rd, wr, case, obs, server, 0, split)
-        if split is not None:
+        # the same transport object is left and entered again before exchange `reenter` / before each of `sessions`;
+        # `abandon`: every session but the last is left without waiting for what is still under way
+        splits = list(case.get("sessions") or ([case["reenter"]] if case.get("reenter") is not None else []))
+        bounds = [0] + splits + [None]
+        for a, b in zip(bounds, bounds[1:]):
             async with t:
                 rd, wr = await t.get_streams()
-                await converse(rd, wr, case, obs, server, split, None)
+                await converse(rd, wr, case, obs, server, a, b, settle=(b is None or not case.get("abandon")))
     else:
         async with make_client(ttype, params, obs) as (rd, wr):
             await converse(rd, wr, case, obs, server)
